@@ -2,7 +2,7 @@
     every PUBACK acknowledges the oldest unacknowledged publish, [clean] returns the
     unacknowledged publishes in the order they were sent — wherever in the id cycle the failure
     happens (ids may have wrapped any number of times, a collision may be parked).
-    Outside the class: Subscribe/Unsubscribe (K19), an earlier Clean (K18), QoS 2, PUBREC,
+    Outside the class: Subscribe/Unsubscribe (K30), an earlier Clean (K29), QoS 2, PUBREC,
     PUBACKs that acknowledge nothing or not the oldest. *)
 From Coq Require Import Arith ZifyBool ZifyN ZifyNat.
 From Rumqtt Require Import Client.VecLemmas Client.Run4 Client.Inv4 Client.Eff4 Client.Flow4.
